@@ -1,6 +1,7 @@
 import Qryn.LogQL.Process
 import Qryn.Proofs.LogQLPlan
 import Qryn.Gen.PlannerGlobals
+import Qryn.Gen.PlannerSelfWrites
 /-! # C14 — query translation is deterministic and a prepared plan can be re-executed -/
 namespace Qryn.C14
 open Qryn Qryn.Sql Qryn.LogQL
@@ -82,4 +83,45 @@ theorem planner_globals_immutable :
        "reader/prof/parser.LogQLLexerRulesV2", "reader/prof/parser.Parser", "reader/prof/parser.ProfLexerDefinition",
        "reader/prof/parser.parseReg",
        "reader/traceql/parser.TraceQLLexerDefinition", "reader/traceql/parser.TraceQLLexerRulesV2"] := by decide
+end Qryn.C14
+
+namespace Qryn.C14
+/-- **planner_self_writes_pinned.** Executing a prepared plan (`Process`, once per second while tailing) may write to
+    the planner objects themselves only at the sites of this regenerated inventory (`Gen.PlannerSelfWrites`: every
+    assignment, `++`, `delete`, address-taking or `range`-assignment whose target is a field of the receiver, inside
+    `Process` or a method of the same receiver reachable from it, for all 99 planner types of the LogQL, TraceQL,
+    PromQL and Pyroscope translation packages). Each listed site was reviewed and is of one of two harmless kinds:
+    (a) the memo pointers `LabelsCache`/`WithCache`, which point into `planner.fpCache`/`labelsCache` and are reset at
+    the start of every execution by `cacheResetPlanner` — this is the state machine `LogQL.Process` models
+    (`process_stable`); (b) values recomputed from immutable configuration before every use
+    (`LineFormatPlanner.formatStr/args` reset in `ProcessTpl`, `LabelFormatPlanner.formatters`, `MainFinalizerPlanner.Alias`
+    default, in-process `labels`/`re`/`logfmtFields`/`parameterTypedValues`, TraceQL `fCmpVal`, `alias`, `isAliased`,
+    `sqlConds`, `where` — all assigned before they are read in the same call). A planner that starts to keep anything
+    else across executions (as `LabelFilterPlanner.MainReq`, the line-filter and `AttrConditionPlanner` accumulators
+    did before their fixes) changes the inventory and fails this obligation; the re-execution streams then search for
+    a query on which the second execution differs. -/
+theorem planner_self_writes_pinned :
+    Qryn.Gen.plannerSelfWrites =
+      ["reader/logql/logql_transpiler_v2/clickhouse_planner.ByWithoutPlanner.processTSTable:LabelsCache",
+       "reader/logql/logql_transpiler_v2/clickhouse_planner.LabelFormatPlanner.makeFormatters:formatters",
+       "reader/logql/logql_transpiler_v2/clickhouse_planner.LabelsJoinPlanner.Process:LabelsCache",
+       "reader/logql/logql_transpiler_v2/clickhouse_planner.LineFormatPlanner.ProcessTpl:args",
+       "reader/logql/logql_transpiler_v2/clickhouse_planner.LineFormatPlanner.ProcessTpl:formatStr",
+       "reader/logql/logql_transpiler_v2/clickhouse_planner.LineFormatPlanner.fieldNode:args",
+       "reader/logql/logql_transpiler_v2/clickhouse_planner.LineFormatPlanner.fieldNode:formatStr",
+       "reader/logql/logql_transpiler_v2/clickhouse_planner.LineFormatPlanner.textNode:formatStr",
+       "reader/logql/logql_transpiler_v2/clickhouse_planner.MainFinalizerPlanner.Process:Alias",
+       "reader/logql/logql_transpiler_v2/clickhouse_planner.PlannerDropSimple.Process:LabelsCache",
+       "reader/logql/logql_transpiler_v2/clickhouse_planner.WithConnectorPlanner.Process:WithCache",
+       "reader/logql/logql_transpiler_v2/internal_planner.ByWithoutPlanner.Process:labels",
+       "reader/logql/logql_transpiler_v2/internal_planner.LineFilterPlanner.Process:re",
+       "reader/logql/logql_transpiler_v2/internal_planner.ParserPlanner.Process:logfmtFields",
+       "reader/logql/logql_transpiler_v2/internal_planner.ParserPlanner.Process:parameterTypedValues",
+       "reader/traceql/transpiler/clickhouse_transpiler.AggregatorPlanner.cmpVal:fCmpVal",
+       "reader/traceql/transpiler/clickhouse_transpiler.AttrConditionPlanner.Process:alias",
+       "reader/traceql/transpiler/clickhouse_transpiler.AttrConditionPlanner.Process:isAliased",
+       "reader/traceql/transpiler/clickhouse_transpiler.AttrConditionPlanner.getCond:isAliased",
+       "reader/traceql/transpiler/clickhouse_transpiler.AttrConditionPlanner.maybeCreateWhere:sqlConds",
+       "reader/traceql/transpiler/clickhouse_transpiler.AttrConditionPlanner.maybeCreateWhere:where"] ∧
+    40 ≤ Qryn.Gen.plannerProcessTypes := by decide
 end Qryn.C14
